@@ -522,3 +522,73 @@ pub open spec fn same_but_tabstops(a: Screen, b: Screen) -> bool {
     && a.icon_name@ == b.icon_name@ && a.charset == b.charset && a.g0_charset == b.g0_charset
     && a.g1_charset == b.g1_charset && a.cursor == b.cursor && a.saved_columns == b.saved_columns
 }
+
+// ---- stand-in for the unicode-width dependency (TRUSTED interface stub; the function is uninterpreted:
+//      contracts hold for any width function) ----------------------------------------------------------
+pub uninterp spec fn char_width(c: char) -> Option<usize>;
+pub trait UnicodeWidthChar: Sized {
+    fn width(self) -> (r: Option<usize>);
+}
+impl UnicodeWidthChar for char {
+    #[verifier::external_body]
+    fn width(self) -> (r: Option<usize>)
+        ensures r == char_width(self),
+    {
+        unimplemented!() // real implementation: unicode_width::UnicodeWidthChar::width
+    }
+}
+
+/// `S.chars().next().and_then(|c| c.width()).is_some_and(|s| s == 2)`
+#[verifier::external_body]
+pub fn first_char_is_wide(s: &String) -> (r: bool)
+    ensures r == (s@.len() > 0 && char_width(s@[0]) == Some(2usize)),
+{
+    unimplemented!()
+}
+/// `R.push_str(&S)`
+#[verifier::external_body]
+pub fn string_push_str(r: &mut String, s: &String)
+    ensures final(r)@ == old(r)@ + s@,
+{
+    r.push_str(s)
+}
+
+// ---- display (C10) ---------------------------------------------------------------------
+pub open spec fn is_wide_text(d: Seq<char>) -> bool { d.len() > 0 && char_width(d[0]) == Some(2usize) }
+/// the text of columns x.. of a row: cell texts left to right, skipping the cell after a double-width lead
+pub open spec fn render_map(row: Map<u32, CharOpts>, cols: int, dflt: Cell, x: int, skip: bool) -> Seq<char>
+    decreases cols - x,
+{
+    if x >= cols || x < 0 { Seq::<char>::empty() }
+    else if skip { render_map(row, cols, dflt, x + 1, false) }
+    else {
+        let d = rget(row, x as u32, dflt).data;
+        d + render_map(row, cols, dflt, x + 1, is_wide_text(d))
+    }
+}
+pub open spec fn render_row(s: Screen, y: u32) -> Seq<char> {
+    render_map(rowmap(s.buffer@, y), s.columns as int, blank(s), 0, false)
+}
+/// everything except the cell buffer
+pub open spec fn same_but_cells(a: Screen, b: Screen) -> bool { same_but_cells_dirty(a, b) && a.dirty@ == b.dirty@ }
+/// cv through a reference (for use inside closure specs, which must not move their captures)
+pub open spec fn cvr(c: &CharOpts) -> Cell { cv(*c) }
+
+pub open spec fn same_but_charset(a: Screen, b: Screen) -> bool {
+    a.savepoints@ == b.savepoints@ && a.columns == b.columns && a.lines == b.lines && a.dirty@ == b.dirty@
+    && a.margins == b.margins && a.buffer@ == b.buffer@ && a.mode@ == b.mode@ && a.title@ == b.title@
+    && a.icon_name@ == b.icon_name@ && a.g0_charset == b.g0_charset
+    && a.g1_charset == b.g1_charset && a.tabstops@ == b.tabstops@ && a.cursor == b.cursor && a.saved_columns == b.saved_columns
+}
+pub open spec fn same_but_title(a: Screen, b: Screen) -> bool {
+    a.savepoints@ == b.savepoints@ && a.columns == b.columns && a.lines == b.lines && a.dirty@ == b.dirty@
+    && a.margins == b.margins && a.buffer@ == b.buffer@ && a.mode@ == b.mode@
+    && a.icon_name@ == b.icon_name@ && a.charset == b.charset && a.g0_charset == b.g0_charset
+    && a.g1_charset == b.g1_charset && a.tabstops@ == b.tabstops@ && a.cursor == b.cursor && a.saved_columns == b.saved_columns
+}
+pub open spec fn same_but_icon(a: Screen, b: Screen) -> bool {
+    a.savepoints@ == b.savepoints@ && a.columns == b.columns && a.lines == b.lines && a.dirty@ == b.dirty@
+    && a.margins == b.margins && a.buffer@ == b.buffer@ && a.mode@ == b.mode@ && a.title@ == b.title@
+    && a.charset == b.charset && a.g0_charset == b.g0_charset
+    && a.g1_charset == b.g1_charset && a.tabstops@ == b.tabstops@ && a.cursor == b.cursor && a.saved_columns == b.saved_columns
+}
